@@ -463,9 +463,14 @@ SPECS["C03"] = dict(
 # C09: small dense eigen-decompositions
 def c09_jobs(tier):
     d = 280 if tier == "quick" else 900
-    return [dict(harness="c09_eig", pattern=r"^schur/n2/general|^zero-matrix/", label="Schur 2x2, zero matrices", deadline=d),
+    jobs = [dict(harness="c09_eig", pattern=r"^schur/n2/general|^zero-matrix/", label="Schur 2x2, zero matrices", deadline=d),
             dict(harness="c09_eig", pattern=r"^schur/n2/defective", label="Schur 2x2 with zero discriminant", deadline=d),
-            dict(harness="c09_eig", pattern=r"^trideig/n2", label="tridiagonal 2x2", deadline=d)]
+            dict(harness="c09_eig", pattern=r"^trideig/n2", label="tridiagonal 2x2", deadline=d),
+            dict(harness="c09_step", pattern=r"^givens/|^trideig-step/n[23]/|^trideig-step/n4/s(1e3|0e2|1e2)$", label="one real tridiagonal QR step from an arbitrary state: invariant preserved (n<=4, active blocks up to 3x3)", deadline=d),
+            dict(harness="c09_step", flags=("-DC09_STUB_STEP",), pattern=r".", label="driver loops of TridiagEigen / UpperHessenbergSchur over a stalled step: iteration cap -> exception, no results", deadline=d)]
+    if tier != "quick":
+        jobs.append(dict(harness="c09_step", pattern=r"^trideig-step/n4/s0e3$", label="one real tridiagonal QR step, full 4x4 block [budgeted]", deadline=1200, cap=(20, 200), budget=True))
+    return jobs
 
 
 SPECS["C09"] = dict(
@@ -475,19 +480,29 @@ SPECS["C09"] = dict(
                  "(negative discriminant), including the zero-discriminant (repeated / defective eigenvalue) case that the eigenvalue extraction and the restart logic of the general solver rely on; the real "
                  "TridiagEigen on every unreduced symmetric 2x2 matrix (one implicit QR step deflates exactly): Z'Z = I, T Z = Z diag(d), only the lower part is read; the zero-matrix exits of TridiagEigen, "
                  "UpperHessenbergEigen and UpperHessenbergSchur for n = 2..4 (eigenvalues 0, unit vectors, no NaN - the UpperHessenbergEigen exit is the repair of a defect found here). The concrete replay "
-                 "driver of that defect (general solver on the zero matrix) is re-run."),
-    functions=["UpperHessenbergSchur<S>::compute, find_small_subdiag, split_off_two_rows, upper_hessenberg_l1_norm", "TridiagEigen<S>::compute, tridiagonal_qr_step", "UpperHessenbergEigen<S>::compute (zero-matrix exit), eigenvectors"],
-    bounds={"quick": {"n": 2, "zero matrices": "n = 2,3,4"}, "thorough": {"n": 2, "zero matrices": "n = 2,3,4"}},
-    outside=["the QR / Francis iterations for n >= 3 (they do not terminate in closed form in exact arithmetic): convergence, backward stability and the iteration cap are NOT covered - this is the bulk of the property",
+                 "driver of that defect (general solver on the zero matrix) is re-run. Iterative part (n >= 3), decided inductively instead of by whole runs: ONE real tridiagonal_qr_step (Wilkinson shift, "
+                 "bulge chase, accumulation) from an ARBITRARY state - symbolic symmetric tridiagonal T, rational orthogonal accumulator Q, every active block [start,end] of size 2-3 inside n <= 4 - "
+                 "preserves the invariant of the whole iteration: Q' orthogonal, Q'T'Q'^T = Q T Q^T, T' again symmetric tridiagonal (bulge chased out), entries outside the block untouched (Eigen's makeGivens "
+                 "replaced by its contract, which is checked on Eigen's real code); with the invariant, termination gives T Z = Z diag(d), Z'Z = I. Driver loops: with the step replaced by a stub that makes no "
+                 "progress, TridiagEigen::compute (n = 2,3) and UpperHessenbergSchur::compute (3x3 window, both exceptional shifts) reach their iteration caps (30n / 40n steps), throw std::runtime_error and "
+                 "never report results; with a stub that deflates at once compute() returns the stub's values scaled back."),
+    functions=["UpperHessenbergSchur<S>::compute, find_small_subdiag, split_off_two_rows, compute_shift, init_francis_qr_step, upper_hessenberg_l1_norm", "TridiagEigen<S>::compute, tridiagonal_qr_step",
+               "UpperHessenbergEigen<S>::compute (zero-matrix exit), eigenvectors", "Eigen::JacobiRotation<S>::makeGivens (contract check)"],
+    stubs=["step cases: Eigen::JacobiRotation::makeGivens := fresh (c,s) with c^2+s^2=1, s p + c q = 0 (checked on Eigen's real code, case givens/real)",
+           "driver cases: tridiagonal_qr_step / perform_francis_qr_step := identity (no progress) or immediate deflation with fresh eigenvalues"],
+    bounds={"quick": {"whole decompositions": "n = 2", "zero matrices": "n = 2,3,4", "tridiagonal QR step": "n = 2,3,4, active blocks of size 2 and 3", "driver / iteration cap": "TridiagEigen n = 2,3; Schur 3x3 window"},
+            "thorough": {"tridiagonal QR step": "+ full 4x4 block [budgeted]"}},
+    outside=["CONVERGENCE of the QR / Francis iterations for n >= 3 and their backward stability (the step invariant and the cap are decided; that the cap is not hit on ordinary input is not)",
+             "the Francis double-shift step of UpperHessenbergSchur itself (two nested Householder radicals per step; its building block DoubleShiftQR is decided under C08)",
              "UpperHessenbergEigen's eigenvalue extraction and back-substitution on symbolic input (harness cases exist; the nested radicals leave them undecided within the solver caps)",
              "matrices with negligible sub-diagonals or entries graded over more than 3 orders of magnitude (deflation thresholds make the result exact only to eps level)", ROUNDING],
     assumptions=["exact real arithmetic", "sub-diagonal > 1e-6*(|d0|+|d1|) + 1e-100 and all entries <= 1000*|sub-diagonal| (no threshold path)",
                  "TridiagEigen 2x2: after the first implicit QR step the sub-diagonal is exactly 0; the solver cannot always refute the 'not yet deflated' branch, those continuation paths are cut at 12 "
                  "decisions and reported as truncated (claim: no wrong result on any completed path)"],
     policy=dict(events="violation", allow_cut=lambda case: case.startswith("trideig/")),
-    technique="symbolic execution of the real 2x2 Schur / tridiagonal eigen code on symbolic matrices; z3 proves the decomposition identities entry-wise",
-    level_text="bounded symbolic verification at n = 2 only, plus the zero-matrix exits; the iterative part of the property (n >= 3) is explicitly not claimed",
-    level_note="n=2; exact arithmetic; domain restricted away from deflation thresholds",
+    technique="symbolic execution of the real 2x2 Schur / tridiagonal eigen code and of one QR step from an arbitrary state on symbolic matrices; z3 proves the decomposition identities / the step invariant entry-wise",
+    level_text="bounded symbolic verification: whole decompositions at n = 2 and the zero-matrix exits; for n >= 3 the inductive step of the tridiagonal QR iteration (n <= 4) and the iteration-cap / failure path of both drivers; convergence is not claimed",
+    level_note="exact arithmetic; domain restricted away from deflation thresholds; Francis step of the Schur class not covered",
 )
 
 
